@@ -34,17 +34,32 @@ text = """
 
 ## 12. Seeded changes: which check catches which change
 
-68 changes (two batches of two per property) written by independent sub-agents that were given only the text of one property and a
+153 changes in four batches (2 + 2 + 2 + 3 per property), written by independent sub-agents that were given only the text of one property and a
 scratch worktree -- nothing from /verif. Each was confirmed in a scratch worktree (demo passes on the clean tree, fails with the
 change; the unedited suite still reports 851 passed) and is kept under `/verif/seeded/<id>/` (patch.diff, demo.py, notes.md,
-meta.json). Five patches of the first batch no longer applied after the `fix:` commits touched the same lines and were ported by hand to
-the fixed tree with the same intent (`ported` in their meta.json). The last column is the result of the FINAL confirmation on `/repo`
-itself (`tools/confirm_seeds.sh`: `git -C /repo apply`, quick check of the property, `git -C /repo checkout -- .`), kept in
-`seeded/RESULTS.tsv`. What the misses of earlier rounds taught (each led to a stronger check, never to a weaker one): process-wide caches
-and objects re-used across calls (re-applied rule objects, one architecture object growing between rules, the same path rewritten,
-repeated scans in one and in fresh processes); imports between related modules and prefix-named siblings; namespace packages; doubled
-glob markers through the entry point; level-limited graphs under renaming; regexes that are verbatim module names; evaluations in the
-middle of a builder chain; undefined layers inside batches.
+meta.json; suffix a,b = batch 1, c,d = batch 2, e,f = batch 3, g,h,i = batch 4). Patches that no longer applied after a `fix:` commit touched the
+same lines were ported by hand to the fixed tree with the same intent (`ported` in their meta.json). The last column is the result of the FINAL
+confirmation on `/repo` itself (`tools/confirm_seeds.sh`: `git -C /repo apply`, quick check of the property, `git -C /repo checkout -- .`), kept in
+`seeded/RESULTS.tsv`.
+
+**How the checks did at FIRST sight of each batch** (before anything was strengthened for it -- the honest estimate of what an unseen change faces):
+batch 3 (asked for small local logic changes): 28 of 34 caught, 6 missed (C01e tuple batches, C02f mixed `from P import module, object`, C03f `re.search`
+for `re.match`, C04f empty directories, C14f / C17e `str.replace` labels); batch 4 (asked for three per property: a far-away helper, an interaction, no
+dotted-boundary changes): 37 of 51 caught, 14 missed (C03g aliased from-import of a sub module, C03h sub module two levels below another subject, C03i / partial
+names, C07g import of the base package, C08i `re.IGNORECASE`, C10h empty counterpart tuple, C13g phantom parent nodes, C14g names beginning with `py`, C14h early loop
+exit in the layer lookup, C15g hash-seed dependence with nested objects, C16i padded names, C01i `sub modules of X ... anything`, C05i `re.search` with regex layers,
+C09h imports of ancestor packages). Every miss was a gap of the BOUNDED layer's input families while the proof side could only say `UNDECIDED` / `OUT-OF-SUBSET` /
+`CONTRACT-DRIFT` for the rewritten function (string-valued quantified goals are proved but never refuted by the solvers); each led to a stronger family
+(never to a weaker check): scanned projects with imports in every equivalent spelling (C01/C03/C14), tuple batches, regex / partial-name filters that match one
+module, nested subjects, empty directories, letter case, empty option tuples, imports to non-modules and of ancestor packages, padded names, redundant layer
+listings, an order-reversing renaming. What the misses of the first two batches taught: process-wide caches and objects re-used across calls (re-applied rule
+objects, one architecture object growing between rules, the same path rewritten, repeated scans in one and in fresh processes); imports between related modules and
+prefix-named siblings; namespace packages; doubled glob markers through the entry point; level-limited graphs under renaming; regexes that are verbatim module
+names; evaluations in the middle of a builder chain; undefined layers inside batches. Three sub-agents also reported quirks of the UNCHANGED tree; two were genuine
+defects inside a property's scope (F10b, F08a, section 11), the others lie outside every property's quantifier and are not claimed: an import of an excluded
+internal module re-appears as an external module with `exclude_external_libraries=False` or through `level_limit` flattening (C08 x C10 / C09 option
+combinations), and a regex layer whose pattern also matches its own descendants (`proj\\.api`) makes `should_not access_any_layer` pass (C05 requires layers
+that list unrelated modules).
 
 | seed | property | file(s) changed | what it needs to manifest (from the author's notes) | result on /repo |
 |------|----------|-----------------|------------------------------------------------------|-----------------|
